@@ -518,11 +518,9 @@ def run(repo: Repo, rep: Report, tier: str) -> None:
 
     array_count_fold_rule(repo, rep, "C08.R8")
     shape_rule(repo, rep, tier, template_read_check_rule, "C08.R9")
+    from .memo import memo_rule
 
-
-
-
-
+    memo_rule(repo, rep, "C08.R11")
 def residue_rule(repo: Repo, rep: Report, rid: str, cg: CallGraph, clo: set[str], roots: list[str]) -> None:
     """Shared-object attributes written in the closure must be reset before any read on entry (or not written at all)."""
     ea = EffectAnalysis(repo, cg)
